@@ -13,6 +13,7 @@ func init() { families = append(families, factsIndex) }
 func factsIndex() {
 	factsC13()
 	factsC12()
+	factsC14()
 	factsC16()
 }
 
@@ -167,4 +168,36 @@ func factsC16() {
 		})
 	}
 	emitList("lazyDirectReturns", "pkg/block/indexheader/lazy_binary_reader.go: Reader methods that return the loaded header's result as it is", direct)
+}
+
+func factsC14() {
+	f := parse("pkg/store/cache/caching_bucket.go")
+	cg := fn(f, "CachingBucket", "cachedGetRange")
+	emitStr("cachedGetRangeGuard", "pkg/store/cache/caching_bucket.go cachedGetRange: the first test on attrs.Size (requests at or past the end go to the bucket)",
+		firstIfCond(body(cg), "attrs.Size"))
+	emitStr("mergeRangesCond", "pkg/store/cache/caching_bucket.go mergeRanges: when two ranges are merged",
+		firstIfCond(body(fn(f, "", "mergeRanges")), "limit"))
+	// the loop that merges until at most MaxSubRequests ranges are left: condition and step
+	loop := "unknown"
+	if fm := fn(f, "CachingBucket", "fetchMissingSubranges"); fm != nil && fm.Body != nil {
+		ast.Inspect(fm.Body, func(n ast.Node) bool {
+			if fs, ok := n.(*ast.ForStmt); ok && fs.Cond != nil && strings.Contains(text(fs.Cond), "MaxSubRequests") {
+				loop = text(fs.Init) + "; " + text(fs.Cond) + "; " + text(fs.Post)
+				return false
+			}
+			return true
+		})
+	}
+	emitStr("mergeUntilLoop", "pkg/store/cache/caching_bucket.go fetchMissingSubranges: the merge-until loop header", loop)
+	store := "unknown"
+	if fm := fn(f, "CachingBucket", "fetchMissingSubranges"); fm != nil && fm.Body != nil {
+		ast.Inspect(fm.Body, func(n ast.Node) bool {
+			if is, ok := n.(*ast.IfStmt); ok && is.Init != nil && strings.Contains(text(is.Init), "hits[key]") {
+				store = text(is.Init) + "; " + text(is.Cond)
+				return false
+			}
+			return true
+		})
+	}
+	emitStr("subrangeStoreCond", "pkg/store/cache/caching_bucket.go fetchMissingSubranges: a fetched subrange is kept and stored only if", store)
 }
